@@ -293,6 +293,36 @@ fn run_scenario_inner(w: &World, sc: &Scenario) -> Result<String, (String, Strin
 	if sc.kind == Kind::SelfSendReceivedSide {
 		t.set_account("acct1").unwrap();
 	}
+	// A transaction of ANOTHER account that carries the same numeric log id as the target
+	// (log ids are per account): issue invoices into acct1 until its next id reaches the
+	// target's, then a pending send from acct1 takes exactly that id
+	if sc.others >= 1 && tname == "A" && sc.kind != Kind::SelfSendReceivedSide {
+		let parent = t.with(|b| b.parent_key_id());
+		if let Some(target) = t.txs().into_iter().find(|e| e.tx_slate_id == Some(slate_id) && e.tx_type == ttype && e.parent_key_id == parent) {
+			t.set_account("acct1").unwrap();
+			let p1 = t.with(|b| b.parent_key_id());
+			loop {
+				let next = t.txs().iter().filter(|e| e.parent_key_id == p1).map(|e| e.id + 1).max().unwrap_or(0);
+				if next >= target.id {
+					break;
+				}
+				let i = t.issue_invoice(IssueInvoiceTxArgs { amount: G, ..Default::default() }).unwrap();
+				slots.push(i.id);
+			}
+			let next = t.txs().iter().filter(|e| e.parent_key_id == p1).map(|e| e.id + 1).max().unwrap_or(0);
+			if next == target.id {
+				if let Ok(s) = t.init_send(default_args(2 * G)) {
+					if t.lock(&s).is_ok() {
+						slots.push(s.id);
+					}
+				}
+			}
+			t.set_account("default").unwrap();
+			// keep the target's slate last in the slot list (its context is the one excluded below)
+			slots.retain(|x| *x != slate_id);
+			slots.push(slate_id);
+		}
+	}
 	// S1
 	let s1 = snap(t, &slots);
 	let other_name = if tname == "A" { "B" } else { "A" };
